@@ -95,6 +95,10 @@ func checkC09(c *Ctx) {
 		return
 	}
 	c09UTF8First(c, ep)
+	r.Rule("R09k", "regular expressions shared by all requests of the emitted TS server are stateless", 1)
+	c09StatelessRegex(c, "R09k")
+	r.Rule("R09l", "header violation descriptions are built from the declared name and the error, not from the raw value", 1)
+	c09ViolationText(c, ep, "R09l")
 	eff := NewEffects(ep)
 	fd, lit := middlewareLit(ep)
 	if lit == nil {
@@ -637,4 +641,107 @@ func c09UTF8First(c *Ctx, ep *EmittedPkg) {
 	}
 	r.Check(ok, "R09j", "validateStringHeader: utf8.ValidString precedes every accepting return", pos,
 		"validateStringHeader can accept a value (directly or through a format validator that only looks at the shape) without having tested it for valid UTF-8: a required header with a declared format and a non-UTF-8 value of the right shape is dispatched instead of being answered with 400")
+}
+
+// c09StatelessRegex: R09k — regular-expression literals of the emitted TypeScript server (module-level constants
+// shared by every request) carry neither the g nor the y flag: with either, RegExp.prototype.test keeps lastIndex
+// between calls and an anchored pattern alternately accepts and rejects the same well-formed value.
+func c09StatelessRegex(c *Ctx, rid string) {
+	r := c.R
+	sl, spos := c.unitLines(pkgTSServer, "_server.ts")
+	cl, _ := c.unitLines(pkgTSClient, "_client.ts")
+	if sl == nil {
+		r.Unres(rid, "TS server unit", "", "not found")
+		return
+	}
+	re := regexp.MustCompile(`= /(?:[^/\\\n]|\\.)+/([a-z]*);`)
+	n := 0
+	var bad []string
+	for _, l := range append(sl, cl...) {
+		t := lineText(l.Segs)
+		for _, m := range re.FindAllStringSubmatch(t, -1) {
+			n++
+			if strings.ContainsAny(m[1], "gy") {
+				bad = append(bad, strings.TrimSpace(holeFree(t)))
+				spos = c.P.Pos(l.Pos)
+			}
+		}
+	}
+	r.Check(n >= 3 && len(bad) == 0, rid, "regular expressions of the emitted TS modules are stateless (no g / y flag)", spos,
+		fmt.Sprintf("%d of %d regular-expression constants carry the g or y flag (%s): .test() on a shared global regex remembers lastIndex, so every second well-formed header value (or the second header of that format in one request) is rejected with 400 although it matches what the OpenAPI document publishes", len(bad), n, firstOf(bad)))
+}
+
+// c09ViolationText: R09l — the description of a header violation is built from the header's declared name and the
+// validator's error only: the raw header value is arbitrary bytes, and a proto3 string field that is not valid UTF-8
+// makes the marshalling of the 400 body fail (the client then gets a bare text error without any violation).
+func c09ViolationText(c *Ctx, ep *EmittedPkg, rid string) {
+	r := c.R
+	fd := ep.Funcs["validateHeaders"]
+	if fd == nil {
+		r.Unres(rid, "validateHeaders", "", "emitted function not found")
+		return
+	}
+	// variables holding raw header values: results of <x>.Header.Get(…) / Values(…)
+	raw := map[types.Object]bool{}
+	ast.Inspect(fd.Body, func(n ast.Node) bool {
+		as, ok := n.(*ast.AssignStmt)
+		if !ok || len(as.Rhs) != 1 {
+			return true
+		}
+		call, ok := as.Rhs[0].(*ast.CallExpr)
+		if !ok {
+			return true
+		}
+		if cal := ep.CalleeOf(call); cal != nil && cal.Pkg() != nil && (cal.Pkg().Path() == "net/http" || cal.Pkg().Path() == "net/textproto") && (cal.Name() == "Get" || cal.Name() == "Values") {
+			for _, l := range as.Lhs {
+				if id, ok := l.(*ast.Ident); ok {
+					raw[ep.Info.ObjectOf(id)] = true
+				}
+			}
+		}
+		return true
+	})
+	n := 0
+	bad := ""
+	var bpos token.Pos
+	ast.Inspect(fd.Body, func(nd ast.Node) bool {
+		kv, ok := nd.(*ast.KeyValueExpr)
+		if !ok || types.ExprString(kv.Key) != "Description" {
+			return true
+		}
+		n++
+		call, ok := ast.Unparen(kv.Value).(*ast.CallExpr)
+		if !ok {
+			return true
+		}
+		format := ""
+		if len(call.Args) > 0 {
+			if tv, ok := ep.Info.Types[call.Args[0]]; ok && tv.Value != nil {
+				format = tv.Value.ExactString()
+			}
+		}
+		// verbs in order; an argument that is a raw header value is admitted under %q only
+		verbs := regexp.MustCompile(`%[-+# 0-9.]*[a-zA-Z]`).FindAllString(format, -1)
+		for i, a := range call.Args[1:] {
+			id, ok := ast.Unparen(a).(*ast.Ident)
+			if !ok || !raw[ep.Info.ObjectOf(id)] {
+				continue
+			}
+			verb := ""
+			if i < len(verbs) {
+				verb = verbs[i]
+			}
+			if !strings.HasSuffix(verb, "q") {
+				bad = fmt.Sprintf("%s printed with %q", id.Name, verb)
+				bpos = call.Pos()
+			}
+		}
+		return true
+	})
+	pos := ep.GenPos(fd.Pos())
+	if bad != "" {
+		pos = ep.GenPos(bpos)
+	}
+	r.Check(n > 0 && bad == "", rid, "header violation descriptions do not embed the raw header value", pos,
+		"validateHeaders puts the raw header value into FieldViolation.Description ("+bad+"): header values are arbitrary bytes; a value that is not valid UTF-8 makes protojson/proto.Marshal of the ValidationError fail, and the response degrades to a bare text 400 without any violation (also for the other offending headers of the request)")
 }
